@@ -15,8 +15,11 @@ import (
 	"strings"
 
 	"github.com/ErdemOzgen/blackdagger/internal/agent"
+	"github.com/ErdemOzgen/blackdagger/internal/client"
 	"github.com/ErdemOzgen/blackdagger/internal/dag"
 	"github.com/ErdemOzgen/blackdagger/internal/dag/scheduler"
+	"github.com/ErdemOzgen/blackdagger/internal/persistence"
+	dsclient "github.com/ErdemOzgen/blackdagger/internal/persistence/client"
 	"github.com/ErdemOzgen/blackdagger/internal/persistence/model"
 	"github.com/robfig/cron/v3"
 	"golang.org/x/sys/unix"
@@ -62,6 +65,15 @@ type CondRes struct {
 	Cls      string `json:"cls"` // met | unmet | panic
 	At       string `json:"at,omitempty"`
 	Msg      string `json:"msg,omitempty"`
+}
+
+// StoreCall is one call of the server's listing / viewing layer on the case file, through ONE DAGStore / client
+// instance (their metadata cache is part of what is exercised): the answer must be an error or a DAG.
+type StoreCall struct {
+	Call string `json:"call"` // e.g. GetMetadata#1, List#2, GetAllStatus#1
+	Cls  string `json:"cls"`  // dag | err | neither | panic
+	Msg  string `json:"msg,omitempty"`
+	At   string `json:"at,omitempty"`
 }
 
 // Res is what one entry point did with one input.
@@ -446,4 +458,109 @@ func writeDoc(dir, name, doc string) string {
 		panic(err)
 	}
 	return p
+}
+
+// runStore loads / lists the file of the case at least twice through one data-store and client instance.
+var (
+	storeDS  persistence.DataStores
+	storeCli client.Client
+	storeSeq int
+)
+
+// One data-store / client instance serves the whole run (as in the server); each case gets a file name of its
+// own, alone in the directory, so that the metadata cache never confuses two cases.
+func runStore(doc string) []StoreCall {
+	var out []StoreCall
+	dir := filepath.Join(scratch, "store-dags")
+	if storeDS == nil {
+		storeDS = dsclient.NewDataStores(dir, filepath.Join(scratch, "store-data"), filepath.Join(scratch, "store-suspend"), dsclient.DataStoreOptions{})
+		storeCli = client.New(storeDS, "", scratch, quietLogger)
+	}
+	os.RemoveAll(dir)
+	os.MkdirAll(dir, 0o755)
+	storeSeq++
+	name := fmt.Sprintf("s%d", storeSeq)
+	writeDoc(dir, name+".yaml", doc)
+	cli := storeCli
+	store := storeDS.DAGStore()
+	call := func(label string, f func() (gotDag bool, nilDag bool, err error)) {
+		c := StoreCall{Call: label}
+		before := envMap()
+		func() {
+			defer func() {
+				if r := recover(); r != nil {
+					c.Cls = "panic"
+					c.Msg = trunc(fmt.Sprint(r), 120)
+					c.At, _ = panicSite()
+				}
+				restoreEnv(before)
+			}()
+			got, nilDag, err := f()
+			switch {
+			case nilDag:
+				c.Cls = "neither"
+				c.Msg = "a nil DAG among the results"
+			case err != nil:
+				c.Cls = "err"
+				c.Msg = trunc(err.Error(), 100)
+			case got:
+				c.Cls = "dag"
+			default:
+				c.Cls = "neither"
+			}
+		}()
+		out = append(out, c)
+	}
+	first := func(errs []string, err error) error {
+		if err == nil && len(errs) > 0 {
+			return fmt.Errorf("%s", errs[0])
+		}
+		return err
+	}
+	for round := 1; round <= 2; round++ {
+		call(fmt.Sprintf("GetMetadata#%d", round), func() (bool, bool, error) {
+			d, err := store.GetMetadata(name)
+			return d != nil, false, err
+		})
+		call(fmt.Sprintf("List#%d", round), func() (bool, bool, error) {
+			ds, errs, err := store.List()
+			for _, d := range ds {
+				if d == nil {
+					return false, true, nil
+				}
+			}
+			return len(ds) > 0, false, first(errs, err)
+		})
+		call(fmt.Sprintf("ListPagination#%d", round), func() (bool, bool, error) {
+			r, err := store.ListPagination(persistence.DAGListPaginationArgs{Page: 1, Limit: 10})
+			if r == nil {
+				return false, false, err
+			}
+			for _, d := range r.DagList {
+				if d == nil {
+					return false, true, nil
+				}
+			}
+			return len(r.DagList) > 0, false, first(r.ErrorList, err)
+		})
+		call(fmt.Sprintf("TagList#%d", round), func() (bool, bool, error) {
+			_, errs, err := store.TagList()
+			e := first(errs, err)
+			return e == nil, false, e
+		})
+		call(fmt.Sprintf("GetDetails#%d", round), func() (bool, bool, error) {
+			d, err := store.GetDetails(name)
+			return d != nil, false, err
+		})
+		call(fmt.Sprintf("GetAllStatus#%d", round), func() (bool, bool, error) {
+			sts, errs, err := cli.GetAllStatus()
+			for _, st := range sts {
+				if st == nil || st.DAG == nil {
+					return false, true, nil
+				}
+			}
+			return len(sts) > 0, false, first(errs, err)
+		})
+	}
+	return out
 }
